@@ -131,7 +131,7 @@ def main():
     engines = [{"name": "tlc", "path": "/usr/local/bin/tlc", "serves_properties": sorted(CHECKS),
                 "kind_free_text": "TLC 1.8 model checker on the TLA+ modules in /verif/spec (" +
                                   ", ".join(sorted(served)) + "); conformance harness /verif/vlib replays TLC-generated cases into pdb2pqr and validates recorded traces with TLC"},
-               {"name": "apalache", "path": "/opt/veriftools/apalache/bin/apalache-mc", "serves_properties": ["C14"],
+               {"name": "apalache", "path": "/usr/local/bin/apalache-mc", "serves_properties": ["C14"],
                 "kind_free_text": "Apalache 0.58 discharges the covering lemma of the cell key arithmetic for all integers (spec/CellsLemma.tla, --length=0); "
                                   "an auxiliary step of the C14 check next to the TLC legs"}]
     m = {
